@@ -2,7 +2,8 @@
 //! Inputs: fully compressed graphs, partially compressed graphs (shards of the k-mer table compressed separately and
 //! combined), uncompressed graphs (one node per k-mer), and graphs that are themselves outputs of compress_graph;
 //! censor lists: none / empty / everything / random subsets (with repeats and out-of-range ids) / a node in the
-//! middle of a would-be path.  Every implementation output is handed to the verified checkers chk.c09.*; the model
+//! middle of a would-be path; half of the count-filtered tables are left UNPRUNED, so that the input graph carries
+//! dangling extension bits (compress_graph must prune them itself).  Every implementation output is handed to the verified checkers chk.c09.*; the model
 //! r.compress_graph is compared exactly.
 use crate::c01::*;
 use crate::gen::*;
@@ -81,7 +82,10 @@ pub fn cases<T: KS + Send + Sync>(out: &mut Out, rng0: &mut Rng, tier: &Tier) {
             _ => 1,
         };
         let colours: Vec<u8> = reads.iter().map(|_| rng.below(3) as u8).collect();
-        let tbl = table_of::<T>(&reads, stranded, min_obs, &colours);
+        // loose: the table keeps its extensions towards filtered-out k-mers, so the input graph carries dangling
+        // extension bits (what a graph built from a count-filtered table looks like before compress_graph prunes it)
+        let loose = min_obs > 1 && rng.chance(1, 2);
+        let tbl = table_of_opt::<T>(&reads, stranded, min_obs, &colours, !loose);
         if tbl.is_empty() {
             continue;
         }
@@ -129,8 +133,10 @@ pub fn cases<T: KS + Send + Sync>(out: &mut Out, rng0: &mut Rng, tier: &Tier) {
         let nn = base.len();
         let st = b(stranded);
         let in_v = base_nodes_v(&base);
-        out.nt = is_delicate(&reads, k) || kind == 1;
-        out.case("chk.c09.valid_input", l(vec![nu(k), st.clone(), in_v.clone()]), b(true));
+        out.nt = is_delicate(&reads, k) || kind == 1 || loose;
+        if !loose {
+            out.case("chk.c09.valid_input", l(vec![nu(k), st.clone(), in_v.clone()]), b(true));
+        }
         // ---- censor lists
         let mut censors: Vec<Option<Vec<usize>>> = Vec::new();
         censors.push(if rng.chance(1, 2) { None } else { Some(vec![]) });
@@ -194,7 +200,7 @@ pub fn cases<T: KS + Send + Sync>(out: &mut Out, rng0: &mut Rng, tier: &Tier) {
             out.case("chk.c09.no_dangling", l(vec![nu(k), st.clone(), o.clone()]), b(true));
             out.case("chk.c09.payload", l(vec![nu(k), st.clone(), in_v.clone(), o.clone()]), b(true));
             // an already compressed input (same join predicate) must come back unchanged up to order/orientation
-            if trivial_censor && kind == 0 && m1 == m2 && !recolour {
+            if trivial_censor && kind == 0 && m1 == m2 && !recolour && !loose {
                 out.case("chk.c09.idempotent", l(vec![nu(k), st.clone(), in_v.clone(), o.clone()]), b(true));
             }
             // the output is compressed: a second pass changes nothing
@@ -217,7 +223,7 @@ pub fn cases<T: KS + Send + Sync>(out: &mut Out, rng0: &mut Rng, tier: &Tier) {
                 let dead: std::collections::HashSet<T> =
                     order.iter().enumerate().filter(|(i, _)| gone.contains(i)).map(|(_, q)| *q).collect();
                 let mut sub: Vec<(T, (Exts, Pay))> = tbl.iter().filter(|e| !dead.contains(&e.0)).cloned().collect();
-                if !dead.is_empty() {
+                if !dead.is_empty() || loose {
                     remove_censored_exts(stranded, &mut sub);
                 }
                 let sp = PaySpec { mode: m2 };
